@@ -70,8 +70,11 @@ def run(spec):
     corpus = sorted(glob.glob(os.path.join(corpus_dir, '*.case')))
     if replay:
         txt = open(replay).read()
-        m = re.search(r'(case .*?endcase)', txt, flags=re.S)
-        cases = [m.group(1) if m else txt]
+        try:
+            txt = json.loads(txt).get('case', txt)      # replay / finding files written by the checks are JSON
+        except ValueError:
+            pass
+        cases = [m.strip() for m in re.findall(r'(case .*?endcase)', txt, flags=re.S)] or [txt]
     else:
         for c in corpus:
             cases.append(open(c).read().strip())
@@ -106,7 +109,9 @@ def run(spec):
         # report distinct monitor messages (first replay for each)
         for k, c, r in mon:
             msg = r['verdict'].split('monitors FAIL:')[-1].strip() if 'monitors FAIL' in r['verdict'] else 'crash: ' + r['raw'][-200:].replace('\n', ' ')
-            sig = re.sub(r'\d+', 'N', msg)[:160]
+            first = msg.split(' | ')[0]
+            first = re.sub(r'PikaVerif\.Erase\.Op\.(\w+)[^:]*:', r'\1:', first)
+            sig = re.sub(r'\[[^\]]*\]', '[..]', re.sub(r'-?\d+', 'N', first))[:160]
             if sig in reported:
                 continue
             reported.add(sig)
